@@ -1,6 +1,6 @@
 from collections import defaultdict
-from outsourcer import Code
-from .constants import POS, RESULT, STATUS, TEXT
+from outsourcer import Code, Yield
+from .constants import CALL, POS, RESULT, STATUS, TEXT
 
 
 class Expression:
@@ -24,8 +24,12 @@ class Expression:
 
     def compile(self, out, flags):
         if not out.has_available_blocks(self.num_blocks):
-            func, params = self.functionalize(out, flags, is_generator=False)
-            out += (STATUS, RESULT, POS) << func(*params)
+            # Too deeply nested for Python: move this expression to a function
+            # of its own. It may contain rule references (which are requests
+            # to the driver), so the function is a generator, and we run it the
+            # way we run any other rule.
+            func = Expression.argumentize(self, out, flags)
+            out += (STATUS, RESULT, POS) << Yield((CALL, func, POS))
             return
 
         if self.is_tagged:
